@@ -129,7 +129,15 @@ Definition is_stored_read (w : world) (o : op) : option (inst * value) :=
 
 Definition is_read (o : op) : bool := match o with Read _ _ => true | _ => false end.
 
+(* an operation addressed to an instance that does not exist (possible in shrunk histories) shows nothing *)
+Definition addressed (w : world) (o : op) : bool :=
+  match o with
+  | NewInst _ => true
+  | _ => (0 <=? target w o) && (target w o <? zlen (w_insts w))
+  end.
+
 Definition law_step (w : world) (o : op) (ob : obs) : list Z :=
+  if negb (addressed w o) then [] else
   let i := target w o in
   let before := nth (Z.to_nat i) (w_insts w) (new_inst 0) in
   let after := o_target ob in
